@@ -3,9 +3,13 @@
    and the post-view the specification computed for every step.
    Atomic = TRUE : steps are tick / state / restart / xchg (one whole GossipOnceWith)
    Atomic = FALSE: message-level steps send / sync / ack / ack2 / drop, MaxMsgs in flight.
-   Once = TRUE   : (with Atomic) no changes, and every unordered pair exchanges at most once:
-                   with Depth = 1 + number of pairs the histories are all orders and directions
-                   of one exchange per pair, each ending with AllPairs (convergence asserted).
+   Once = TRUE   : (with Atomic) every unordered pair exchanges at most once since the last
+                   change: with MaxChanges = 0 and Depth = 1 + number of pairs the histories are all
+                   orders and directions of one exchange per pair, each ending with AllPairs
+                   (convergence asserted); with MaxChanges = c the same around c changes (tick /
+                   restart / owner state change to any of the MaxState states, e.g. Left). A
+                   history is also emitted when nothing more can happen (all pairs exchanged,
+                   changes used up).
    MaxSends > 0  : (message level) at most MaxSends exchanges are started; a history also ends
                    (and is emitted) as soon as all of them have run to completion, so with
                    Depth >= 1 + 4 * MaxSends the histories are ALL interleavings of the messages
@@ -37,7 +41,7 @@ NumSends == Cardinality({k \in 1..Len(hist) : hist[k].a = "send"})
 NumChanges == Cardinality({k \in 1..Len(hist) : hist[k].a \in {"tick", "state", "restart"}})
 AllDone == MaxSends > 0 /\ NumSends = MaxSends /\ net = {}
 GNext == /\ Len(hist) < Depth /\ ~AllDone
-         /\ \/ ~Once /\ NumChanges < MaxChanges /\ Changes
+         /\ \/ NumChanges < MaxChanges /\ Changes
             \/ Atomic /\ \E i, j \in Node : (~Once \/ {i, j} \notin exchanged) /\ Exchange(i, j) /\ Log("xchg", i, j, 0)
             \/ ~Atomic /\ (MaxSends = 0 \/ NumSends < MaxSends)
                       /\ \E i, j \in Node : SendSync(i, j) /\ Log("send", i, j, 0)
@@ -50,5 +54,6 @@ GInit == /\ Init
          /\ hist = <<[a |-> "init", i |-> "", j |-> "", s |-> 0, m |-> NoMsg, st |-> CView(view),
                       conv |-> FALSE]>>
 GSpec == GInit /\ [][GNext]_<<vars, hist>>
-Emit == (Len(hist) # Depth /\ ~AllDone) \/ PrintT(<<"HIST", ToJson(hist)>>)
+OnceDone == Atomic /\ Once /\ AllPairs /\ NumChanges >= MaxChanges
+Emit == (Len(hist) # Depth /\ ~AllDone /\ ~OnceDone) \/ PrintT(<<"HIST", ToJson(hist)>>)
 ====
